@@ -12,6 +12,11 @@
 //!   JSONV <str>               V<str> | N | E       json_parse to variables then json_encode
 //!   PROPS <keys> <values>     V<text> TAB <sorted k=v list of the map read back> | E
 //!   PROPSR <text>             <sorted k=v list> | E      map_load_properties on a given text
+//!   PW <prefix> <keys> <values>       V<text> | E<kind>          map_to_properties [--prefix p] (lines in the HashMap's order)
+//!   PR <prefix> <text>                M<sorted k v ...> | E<kind>:<line>   map_load_properties [--prefix p] into an empty map
+//!   PRT <p> <q> <keys> <values>       <PW result> TAB <PR result of that text | ->
+//!     error kinds: 1 not enough digits, 2 not hex, 3 invalid character (java-properties' unescape), 10 str::from_utf8
+//!     failed, 11 encoder error, 0 anything else; <line> is the crate's line_number (0 when there is none)
 use dsverif::*;
 use duckscript::runner;
 use duckscript::types::runtime::{Context, StateValue};
@@ -97,6 +102,59 @@ fn map_dump(ctx: &mut Context, key: &str) -> String {
     }
 }
 
+/// kind and line number of a java-properties / map_to_properties error message (never the message itself)
+fn props_err(msg: &str) -> String {
+    let kind = if msg.contains("not enough digits") {
+        1
+    } else if msg.contains("not hex") {
+        2
+    } else if msg.contains("invalid character") {
+        3
+    } else if msg.contains("utf-8") {
+        10
+    } else if msg.contains("Encoding error") {
+        11
+    } else {
+        0
+    };
+    let line = match msg.rfind("(line_number = ") {
+        Some(i) => msg[i + 15..].trim_end_matches(')').parse::<usize>().unwrap_or(0),
+        None => 0,
+    };
+    format!("E{}:{}", kind, line)
+}
+
+fn props_write(prefix: &str, keys: &[String], values: &[String]) -> Result<String, String> {
+    let mut context = sdk_context(true);
+    let mut m = HashMap::new();
+    for (k, v) in keys.iter().zip(values.iter()) {
+        m.insert(k.clone(), StateValue::String(v.clone()));
+    }
+    handles(&mut context).insert("handle:in".to_string(), StateValue::SubState(m));
+    context.variables.insert("p".to_string(), prefix.to_string());
+    match runner::run_script("text = map_to_properties --prefix ${p} handle:in\n", context, None) {
+        Ok(ctx) => match ctx.variables.get("__first_err") {
+            Some(msg) => Err(props_err(msg)),
+            None => Ok(ctx.variables.get("text").cloned().unwrap_or_default()),
+        },
+        Err(e) => Err(format!("X{}", enc_str(&e.to_string()))),
+    }
+}
+
+fn props_read(prefix: &str, text: &str) -> String {
+    let mut context = sdk_context(true);
+    handles(&mut context).insert("handle:back".to_string(), StateValue::SubState(HashMap::new()));
+    context.variables.insert("p".to_string(), prefix.to_string());
+    context.variables.insert("v0".to_string(), text.to_string());
+    match runner::run_script("ok = map_load_properties --prefix ${p} handle:back ${v0}\n", context, None) {
+        Ok(mut ctx) => match ctx.variables.get("__first_err") {
+            Some(msg) => props_err(msg),
+            None => map_dump(&mut ctx, "handle:back"),
+        },
+        Err(e) => format!("X{}", enc_str(&e.to_string())),
+    }
+}
+
 fn main() {
     serve(|f| {
         let mut context = sdk_context(true);
@@ -164,6 +222,21 @@ fn main() {
                     Err(e) => e,
                 }
             }
+            // history: the same text parsed twice in one runtime with the first result edited in between; the second
+            // round trip must not depend on what happened to the first one
+            "JSONH" => {
+                context.variables.insert("v0".to_string(), dec_str(f[1]));
+                match run("h1 = json_parse --collection ${v0}\nisa = is_array ${h1}\nif ${isa}\narray_push ${h1} ZZ\nend\nism = is_map ${h1}\nif ${ism}\nmap_put ${h1} zz ZZ\nend\nh = json_parse --collection ${v0}\nout = json_encode --collection ${h}\n", context) {
+                    Ok(ctx) => {
+                        if ctx.variables.contains_key("h") {
+                            out_var(&ctx, "out")
+                        } else {
+                            "N".to_string()
+                        }
+                    }
+                    Err(e) => e,
+                }
+            }
             "JSONV" => {
                 context.variables.insert("v0".to_string(), dec_str(f[1]));
                 match run("root = json_parse ${v0}\nout = json_encode root\n", context) {
@@ -193,6 +266,15 @@ fn main() {
                     Err(e) => e,
                 }
             }
+            "PW" => match props_write(&dec_str(f[1]), &dec_list(f[2]), &dec_list(f[3])) {
+                Ok(t) => format!("V{}", enc_str(&t)),
+                Err(e) => e.split(':').next().unwrap_or("E").to_string(),
+            },
+            "PR" => props_read(&dec_str(f[1]), &dec_str(f[2])),
+            "PRT" => match props_write(&dec_str(f[1]), &dec_list(f[3]), &dec_list(f[4])) {
+                Ok(t) => format!("V{}\t{}", enc_str(&t), props_read(&dec_str(f[2]), &t)),
+                Err(e) => format!("{}\t-", e.split(':').next().unwrap_or("E")),
+            },
             _ => "BADLINE".to_string(),
         }
     });
